@@ -486,7 +486,7 @@ def tensor_from_nested(x, dtype=None):
             return "int"
         if isinstance(v, (float, Sym)):
             return "real"
-        raise Unsupported(f"torch.tensor leaf {type(v).__name__}")
+        raise IN.RaisedEx("TypeError", f"torch.tensor: not a number ({type(v).__name__})")
 
     dt = dtype or leaf_dtype(x)
 
